@@ -546,6 +546,15 @@ def families(G, N, empties=False):
     return out
 
 
+def any_order(G, N, empties=False):
+    """ALL sequences (no order constraint) of 1..N intervals [a, b) on 0..G; empties=True adds [a, a)"""
+    ivs = [(a, b) for a in range(G + 1) for b in range(a if empties else a + 1, G + 1)]
+    out = []
+    for n in range(1, N + 1):
+        out.extend(list(x) for x in itertools.product(ivs, repeat=n))
+    return out
+
+
 NAMES_PREP = ["k Cmpt Prep", "Cmpt Prep", "conv_2-1 Cmpt Prep", "a b Cmpt Prep", "xCmpt Prep"]
 NAMES_OTHER = ["k Cmpt Exec", "k DmaI", "k DmaO", "hostfn", "k Cmpt Prep ", "k Cmpt Prepx", "k cmpt prep",
                "Cmpt Prep k", "k Cmpt  Prep", "Prep", "", "k Cmpt Prep$", "k Cmpt Pre"]
@@ -863,11 +872,12 @@ def run(ctx):
     seen_nt = set()
 
     # ---------------------------------------------------------------- stage cases
-    stage_cases = []     # (keep, spec, origin)
+    stage_cases = []     # (sorted_input, keep, spec, origin)
     for c in load_corpus():
         if c.get("level") == "stage":
-            for keep in ([c["keep_prep"]] if "keep_prep" in c else [False, True]):
-                stage_cases.append((keep, c["events"], "corpus:" + c["_file"]))
+            for si in ([c["sorted_input"]] if "sorted_input" in c else [True, False]):
+                for keep in ([c["keep_prep"]] if "keep_prep" in c else [False, True]):
+                    stage_cases.append((si, keep, c["events"], "corpus:" + c["_file"]))
     grids = ctx.pick([(6, 4)], [(6, 5), (7, 4)])        # (G, N): all families of <= N intervals on 0..G
     keep_max = ctx.pick(3, 4)
     fams, seen_f = [], set()
@@ -886,9 +896,30 @@ def run(ctx):
     n_fam = len(fams)
     for fam in fams:
         spec = [P(0, a, b) for a, b in fam]
-        stage_cases.append((False, spec, "grid"))
+        stage_cases.append((True, False, spec, "grid"))
         if len(fam) <= keep_max:
-            stage_cases.append((True, spec, "grid"))
+            stage_cases.append((True, True, spec, "grid"))
+    # hold mode (sorted_input=False, the -M registration): ALL sequences in any order
+    hold_grids = ctx.pick([(5, 3), (3, 4)], [(5, 4), (3, 5)])
+    hold_keep_max = ctx.pick(2, 3)
+    hfams, seen_h = [], set()
+    for G, N in hold_grids:
+        for fam in any_order(G, N):
+            k = tuple(fam)
+            if k not in seen_h:
+                seen_h.add(k)
+                hfams.append(fam)
+    GH0, NH0 = ctx.pick((3, 3), (3, 4))
+    for fam in any_order(GH0, NH0, empties=True):
+        if any(a == b for a, b in fam):
+            hfams.append(fam)
+    del seen_h
+    n_hfam = len(hfams)
+    for fam in hfams:
+        spec = [P(0, a, b) for a, b in fam]
+        stage_cases.append((False, False, spec, "grid-hold"))
+        if len(fam) <= hold_keep_max:
+            stage_cases.append((False, True, spec, "grid-hold"))
     n_grid = len(stage_cases)
     if not ctx.quick():      # two ranks: pairs of families merged by start, pids interleaved
         small = [f for f in fams if 1 <= len(f) <= 3]
@@ -896,37 +927,50 @@ def run(ctx):
             fa, fb = r.choice(small), r.choice(small)
             spec = sorted([P(0, a, b) for a, b in fa] + [P(1, a, b) for a, b in fb],
                           key=lambda x: (x["ts"], r.random()))
-            stage_cases.append((r.random() < 0.3, spec, "grid2"))
+            stage_cases.append((True, r.random() < 0.3, spec, "grid2"))
+        for _ in range(10000):   # the same merged in any order, hold mode
+            fa, fb = r.choice(small), r.choice(small)
+            spec = [P(0, a, b) for a, b in fa] + [P(1, a, b) for a, b in fb]
+            r.shuffle(spec)
+            stage_cases.append((False, r.random() < 0.3, spec, "grid2-hold"))
     for _ in range(ctx.pick(3000, 40000)):
-        stage_cases.append((r.random() < 0.4, gen_stream(r, domain=True), "random"))
-    for _ in range(ctx.pick(600, 6000)):
-        stage_cases.append((r.random() < 0.4, gen_stream(r, domain=False), "unsorted"))
+        stage_cases.append((r.random() < 0.7, r.random() < 0.4, gen_stream(r, domain=True), "random"))
+    # unsorted arrival: in the property's domain in hold mode (two thirds of these), tie-only in the default mode
+    for _ in range(ctx.pick(1500, 15000)):
+        stage_cases.append((r.random() < 0.33, r.random() < 0.4, gen_stream(r, domain=False), "unsorted"))
     for _ in range(ctx.pick(300, 3000)):
-        stage_cases.append((r.random() < 0.4, gen_stream(r, domain=True, malformed=True), "malformed"))
+        stage_cases.append((r.random() < 0.6, r.random() < 0.4, gen_stream(r, domain=True, malformed=True),
+                            "malformed"))
     for _ in range(ctx.pick(300, 3000)):
-        stage_cases.append((r.random() < 0.4, gen_stream(r, domain=True, zero=True), "zero"))
+        stage_cases.append((r.random() < 0.6, r.random() < 0.4,
+                            gen_stream(r, domain=r.random() < 0.6, zero=True), "zero"))
 
     terms, kept = [], []
     T = Terms()
     dist["stage_origin"] = {}
     dist["stage_len"] = {}
     dist["stage_in_domain"] = 0
+    dist["stage_in_domain_hold_unsorted"] = 0
+    dist["stage_mode"] = {"sorted_input": 0, "hold": 0}
     dist["stage_errors"] = {}
-    for keep, spec, origin in stage_cases:
-        out = run_stage_impl(keep, spec)
-        terms.append((T.stage_case(keep, spec), T.stage_out(out)))
-        kept.append((keep, spec, origin))
+    for si, keep, spec, origin in stage_cases:
+        out = run_stage_impl(si, keep, spec)
+        terms.append((T.stage_case(si, keep, spec), T.stage_out(out)))
+        kept.append((si, keep, spec, origin))
+        dist["stage_mode"]["sorted_input" if si else "hold"] += 1
         dist["stage_origin"][origin] = dist["stage_origin"].get(origin, 0) + 1
         ln = min(len(spec), 15)
         dist["stage_len"][ln] = dist["stage_len"].get(ln, 0) + 1
         if isinstance(out, enc.Err):
             dist["stage_errors"][out.tag] = dist["stage_errors"].get(out.tag, 0) + 1
-        if in_domain(spec):
+        if in_domain(si, spec):
             dist["stage_in_domain"] += 1
-            f = stage_fail(keep, spec, out)
+            if not si and not in_domain(True, spec):
+                dist["stage_in_domain_hold_unsorted"] += 1
+            f = stage_fail(si, keep, spec, out)
             if f:
                 oracle_failures.append(f)
-            key = json.dumps(spec, sort_keys=True)
+            key = json.dumps([si, spec], sort_keys=True)
             if key not in seen_nt and touching(spec):
                 seen_nt.add(key)
     # off-grid stream (supporting, oracle only): realistic decimal timestamps.  The oracle uses the same float
@@ -934,6 +978,7 @@ def run(ctx):
     n_off = 0
     for _ in range(ctx.pick(1500, 20000)):
         keep = r.random() < 0.4
+        si = r.random() < 0.6
         spec = gen_stream(r, domain=True)
         base = r.choice([0.0, 1.5e6, 1.7e15 / 1e3])
         sc = r.choice([0.001, 0.37, 1.0 / 560.0])
@@ -941,37 +986,47 @@ def run(ctx):
             s["ts"] = base + round(s["ts"] * sc, 4)
             if s.get("dur") is not None:
                 s["dur"] = round(s["dur"] * sc, 4)
-        spec.sort(key=lambda x: x["ts"])
-        if not in_domain(spec):
+        if si:
+            spec.sort(key=lambda x: x["ts"])
+        else:
+            r.shuffle(spec)
+        if not in_domain(si, spec):
             continue
         n_off += 1
-        f = stage_fail(keep, spec, run_stage_impl(keep, spec))
+        f = stage_fail(si, keep, spec, run_stage_impl(si, keep, spec))
         if f:
             f["input"]["origin"] = "off-grid"
             oracle_failures.append(f)
     dist["offgrid_oracle_only"] = n_off
 
     bad, extras, secs = coqrun.run_cases(
-        "C13_stage", IMPORTS, "(bool * list ev)", "run_val", terms, shard=1000, prelude=T.prelude(),
+        "C13_stage", IMPORTS, "((bool * bool) * list ev)", "run_val", terms, shard=1000, prelude=T.prelude(),
         extra="Definition nt := Eval vm_compute in (count_if nontrivial cases).\nLocal Open Scope nat_scope.\nPrint nt.")
     for j in bad[:5]:
         mismatches.append({"name": "correspondence PrepQueue.run_val vs queueing_counter/QueueingCounterContext",
-                           "case": {"keep_prep": kept[j][0], "events": kept[j][1], "origin": kept[j][2]},
+                           "case": {"sorted_input": kept[j][0], "keep_prep": kept[j][1], "events": kept[j][2],
+                                    "origin": kept[j][3]},
                            "impl": terms[j][1][:600]})
-    ties.append({"name": "PrepQueue.run_val = real queueing_counter stage (callbacks + drain)", "cases": len(terms),
+    ties.append({"name": "PrepQueue.run_val = real queueing_counter stage (callbacks + drain), context in default "
+                         "(sorted_input) and hold mode", "cases": len(terms),
                  "mismatching": len(bad), "coq_seconds": round(secs, 1), "nontrivial_in_coq": extras.get("nt")})
     stage_bad_specs = [kept[j] for j in bad[:50]]
 
     # ---------------------------------------------------------------- update_queues alone
-    uq_cases = [gen_uq(r) for _ in range(ctx.pick(2000, 30000))]
-    uq_cases += [(2.0, 5.0, [(0.0, 1), (10.0, 0)]), (0.0, 1.0, []), (3.0, 3.0, [(0.0, 1), (3.0, 0)])]
-    uterms = [(coq_uq_case(s, e, q), enc.V(run_uq_impl(s, e, q))) for s, e, q in uq_cases]
-    bad_u, _, secs = coqrun.run_cases("C13_uq", IMPORTS, "((Q * Q) * list bp)", "uq_val", uterms, shard=1000)
+    uq_cases = [(r.random() < 0.5,) + gen_uq(r) for _ in range(ctx.pick(2500, 30000))]
+    for si in (True, False):
+        uq_cases += [(si, 2.0, 5.0, [(0.0, 1), (10.0, 0)]), (si, 0.0, 1.0, []), (si, 3.0, 3.0, [(0.0, 1), (3.0, 0)]),
+                     (si, 4.0, 6.0, [(0.0, 1), (2.0, 2), (5.0, 1), (10.0, 0)]),
+                     (si, 1014.0, 1023.0, [(1013.0, 1), (1015.0, 1), (1024.0, 0)])]
+    uterms = [(coq_uq_case(si, s, e, q), enc.V(run_uq_impl(si, s, e, q))) for si, s, e, q in uq_cases]
+    bad_u, _, secs = coqrun.run_cases("C13_uq", IMPORTS, "((bool * (Q * Q)) * list bp)", "uq_val", uterms, shard=1000)
     for j in bad_u[:3]:
         mismatches.append({"name": "correspondence PrepQueue.uq_val vs QueueingCounterContext.update_queues",
-                           "case": {"s": uq_cases[j][0], "e": uq_cases[j][1], "queue": uq_cases[j][2]},
+                           "case": {"sorted_input": uq_cases[j][0], "s": uq_cases[j][1], "e": uq_cases[j][2],
+                                    "queue": uq_cases[j][3]},
                            "impl": uterms[j][1][:400]})
-    ties.append({"name": "PrepQueue.uq_val = real update_queues on arbitrary stored lists", "cases": len(uterms),
+    ties.append({"name": "PrepQueue.uq_val = real update_queues on arbitrary stored lists, both modes",
+                 "cases": len(uterms),
                  "mismatching": len(bad_u), "coq_seconds": round(secs, 1)})
 
     # ---------------------------------------------------------------- Prep name test + dialect entries
@@ -1017,9 +1072,12 @@ def run(ctx):
     dist["e2e_ranks"] = {}
     dist["e2e_preps_per_run"] = {}
     dist["e2e_stage_events"] = 0
+    dist["e2e_mode"] = {"default": 0, "-M (hold)": 0, "-M with unsorted stage input": 0}
     e2e_runs = 0
     for sc in scs:
         nr = len(sc["ranks"])
+        # the mode the options call for (NOT read off the context the run built): -M -> hold
+        si = "-M" not in sc.get("opts", [])
         dist["e2e_ranks"][nr] = dist["e2e_ranks"].get(nr, 0) + 1
         npz = sum(1 for evs in sc["ranks"] for x in evs if x["kind"] == "prep")
         dist["e2e_preps_per_run"][npz] = dist["e2e_preps_per_run"].get(npz, 0) + 1
@@ -1033,10 +1091,13 @@ def run(ctx):
             if res["err"] is None:
                 series[keep] = export_views(res["export"])[1]
             if res["stage_out"] is not None and encodable(res["stage_in"]):
-                eterms.append((TE.stage_case(keep, res["stage_in"]), TE.stage_out(res["stage_out"])))
+                eterms.append((TE.stage_case(si, keep, res["stage_in"]), TE.stage_out(res["stage_out"])))
                 ecases.append((sc, keep))
                 dist["e2e_stage_events"] += len(res["stage_in"])
-                key = json.dumps(res["stage_in"], sort_keys=True)
+                dist["e2e_mode"]["default" if si else "-M (hold)"] += 1
+                if not si and not in_domain(True, res["stage_in"]):
+                    dist["e2e_mode"]["-M with unsorted stage input"] += 1
+                key = json.dumps([si, res["stage_in"]], sort_keys=True)
                 if key not in seen_nt and touching(res["stage_in"]):
                     seen_nt.add(key)
             elif res["err"] is None and res["stage_called"]:
@@ -1047,19 +1108,22 @@ def run(ctx):
                 "same ConcurrentPreps series with and without --keep_prep",
                 {"without": {str(k): v for k, v in series[False].items()},
                  "with": {str(k): v for k, v in series[True].items()}}))
-    bad_e, _, secs = coqrun.run_cases("C13_e2e", IMPORTS, "(bool * list ev)", "run_val", eterms, shard=100,
+    bad_e, _, secs = coqrun.run_cases("C13_e2e", IMPORTS, "((bool * bool) * list ev)", "run_val", eterms, shard=100,
                                        prelude=TE.prelude())
     for j in bad_e[:3]:
         mismatches.append({"name": "correspondence PrepQueue.run_val vs the queueing_counter stage inside a real "
                                    "Acelyzer run", "case": {"scenario": ecases[j][0], "keep_prep": ecases[j][1]},
                            "impl": eterms[j][1][:600]})
     ties.append({"name": "PrepQueue.run_val = queueing_counter stage as it runs inside Acelyzer (recorded input and "
-                         "output of the stage), +/- --keep_prep", "cases": len(eterms), "mismatching": len(bad_e),
+                         "output of the stage), +/- --keep_prep, +/- -M (model in hold mode under -M)",
+                 "cases": len(eterms), "mismatching": len(bad_e),
                  "coq_seconds": round(secs, 1), "acelyzer_runs": e2e_runs})
 
-    # the real command line (subprocess) on the first two generated scenarios
+    # the real command line (subprocess) on the first generated scenarios and on the first two -M scenarios
     cli_runs = 0
-    for sc in scs[n_corpus_e2e:n_corpus_e2e + ctx.pick(2, 10)]:
+    cli_scs = scs[n_corpus_e2e:n_corpus_e2e + ctx.pick(2, 10)]
+    cli_scs += [sc for sc in scs if "-M" in sc.get("opts", []) and sc not in cli_scs][:ctx.pick(2, 6)]
+    for sc in cli_scs:
         for keep in (False, True):
             rc, export = run_cli(sc, keep, ctx.work)
             cli_runs += 1
@@ -1089,7 +1153,9 @@ def run(ctx):
     # stage-level replays first (fast, minimal), then end-to-end ones
     # ... and a violated conclusion of the property before a violated hypothesis / diagnosis
     diag = ("stage_input_not_start_sorted", "keep_prep_not_forwarded", "queueing_counter_stage_not_run")
-    shrunk.sort(key=lambda f: (f["signature"]["kind"] in diag,
+    # ... and a wrong series before "the stage raises" (the theorems are conditional on the stage not raising; a
+    # context that cannot even be built in hold mode shows up as TypeError here and as a wrong count end to end)
+    shrunk.sort(key=lambda f: (f["signature"]["kind"] in diag, f["signature"]["kind"] == "stage_raises",
                                {"stage": 0, "name": 1, "e2e": 2}.get(f["input"]["level"], 3)))
     dist["oracle_failures_total"] = len(oracle_failures)
     ctx._c13_bad_stage = stage_bad_specs
@@ -1099,18 +1165,22 @@ def run(ctx):
     dist["seconds"] = round(time.time() - t_start, 1)
     return {
         "evaluations": n_eval, "distinct_nontrivial": len(seen_nt),
-        "rule": "stage tie: ALL start-sorted sequences (every order among equal starts) of <= N Prep intervals "
-                f"[a,b) with integer a < b on the grid 0..G for (G, N) in {grids} ({n_fam} families; keep_prep off "
+        "rule": "stage tie, default mode: ALL start-sorted sequences (every order among equal starts) of <= N Prep "
+                f"intervals [a,b) with integer a < b on the grid 0..G for (G, N) in {grids} ({n_fam} families; keep_prep off "
                 f"for all, on for those of <= {keep_max} intervals; included: all families of <= {N0} intervals on 0..{G0} "
-                f"that contain an empty interval [a,a): {n_grid} cases incl. corpus) + "
-                + ("30000 two-rank merges of such families + " if not ctx.quick() else "") +
-                "random multi-pid streams (sorted / "
-                "unsorted / malformed / with empty intervals) + update_queues on arbitrary lists + name test + "
-                "the stage inside real Acelyzer runs (+/- --keep_prep). non-trivial = distinct stage input streams "
+                f"that contain an empty interval [a,a)); hold mode (sorted_input=False): ALL sequences in ANY order of "
+                f"<= N intervals on 0..G for (G, N) in {hold_grids} plus those of <= {NH0} on 0..{GH0} that contain an "
+                f"empty interval ({n_hfam} sequences; keep_prep on for those of <= {hold_keep_max}): {n_grid} cases incl. "
+                "corpus (every corpus stream in both modes) + "
+                + ("30000 two-rank merges of such families + 10000 shuffled ones in hold mode + " if not ctx.quick() else "") +
+                "random multi-pid streams in both modes (sorted / "
+                "unsorted / malformed / with empty intervals) + update_queues on arbitrary lists in both modes + name test + "
+                "the stage inside real Acelyzer runs (+/- --keep_prep, +/- -M). non-trivial = distinct (mode, stage input stream) "
                 "(direct or recorded end to end) in which some pid has >= 2 Prep intervals that touch, nest or "
                 f"overlap (max(s1,s2) <= min(e1,e2)); the Coq-side rule over the direct stage cases gives "
                 f"{extras.get('nt')}",
-        "samples": [{"keep_prep": kept[j][0], "events": kept[j][1]} for j in (n_grid - 1, n_grid + 1)] +
+        "samples": [{"sorted_input": kept[j][0], "keep_prep": kept[j][1], "events": kept[j][2]}
+                    for j in (n_grid - 1, n_grid + 1)] +
                    [{"e2e_scenario": scs[-1]}],
         "mismatches": mismatches, "oracle_failures": shrunk,
         "ties": ties, "distribution": dist, "exhaustive": True,
@@ -1125,9 +1195,9 @@ def search(ctx, res, broken):
     setup_jobs()
     r = random.Random(ctx.seed + 1013)
     t0 = time.time()
-    for keep, spec, _ in getattr(ctx, "_c13_bad_stage", []):
-        if in_domain(spec):
-            f = stage_fail(keep, spec, run_stage_impl(keep, spec))
+    for si, keep, spec, _ in getattr(ctx, "_c13_bad_stage", []):
+        if in_domain(si, spec):
+            f = stage_fail(si, keep, spec, run_stage_impl(si, keep, spec))
             if f:
                 return [shrink_stage(f)]
     limit = ctx.pick(60, 600)
@@ -1135,8 +1205,9 @@ def search(ctx, res, broken):
     while time.time() - t0 < limit and n < ctx.pick(40000, 400000):
         n += 1
         keep = r.random() < 0.4
-        spec = gen_stream(r, domain=True, zero=r.random() < 0.3)
-        f = stage_fail(keep, spec, run_stage_impl(keep, spec))
+        si = r.random() < 0.6
+        spec = gen_stream(r, domain=si or r.random() < 0.3, zero=r.random() < 0.3)
+        f = stage_fail(si, keep, spec, run_stage_impl(si, keep, spec))
         if f:
             return [shrink_stage(f)]
         if n % 50 == 0:
@@ -1156,7 +1227,7 @@ def replay(ctx, payload):
     inp = f["input"]
     lvl = inp.get("level")
     if lvl == "stage":
-        out = run_stage_impl(inp["keep_prep"], inp["events"])
+        out = run_stage_impl(inp.get("sorted_input", True), inp["keep_prep"], inp["events"])
         bad = oracle_stage(inp["keep_prep"], inp["events"], out)
         return not bad, {"symptoms": bad[:4], "stage_output": out.tag if isinstance(out, enc.Err) else out}
     if lvl == "e2e":
